@@ -27,10 +27,22 @@ cp $OUT/patch_$K.diff $DEST/patch.diff; cp $OUT/demo_$K.py $DEST/demo.py
 /venv/bin/python - "$OUT/meta_$K.json" "$DEST/meta.json" "$D0" "$D1" "$TESTS" "$RES" <<'PY'
 import json, sys
 src, dst, d0, d1, tests, res = sys.argv[1:7]
+import os
 try:
     m = json.load(open(src))
 except Exception:
     m = {}
+if os.path.exists(dst):
+    try:
+        old = json.load(open(dst))
+        if 'first_run' in old:
+            m['first_run'] = old['first_run']
+        elif 'confirmed' in old:
+            m['first_run'] = old['confirmed'].get('checks_quick_violation_lines')
+        if 'strengthening' in old:
+            m['strengthening'] = old['strengthening']
+    except Exception:
+        pass
 m['confirmed'] = {'demo_exit_unchanged': int(d0), 'demo_exit_with_change': int(d1), 'stable_tests': tests,
                   'checks_quick_violation_lines': dict(x.split(':') for x in res.split()),
                   'how': 'fresh worktree of /repo HEAD; demo run before/after git apply; full pytest with junit compared to BASELINE stable_pass (tools/baseline_cmp.py); checks run with VERIF_REPO=<worktree> (quick tier)'}
